@@ -17,8 +17,8 @@ def is_alpha(t):
 
 def alpha_index_of(t):
     """ALPHA.index(sym) -> sym ; {"A":0,..}[sym] -> sym"""
-    if t[0] == 'call' and t[1][0] == 'attr' and t[1][2] == 'index' and is_alpha(t[1][1]) and len(t[2]) == 1:
-        return t[2][0]
+    if t[0] == 'call' and t[1][0] == 'attr' and t[1][2] in ('index', 'find') and is_alpha(t[1][1]) and len(t[2]) == 1:
+        return t[2][0]      # find() is index() where the symbol is a letter; whether it is one is the membership guard's business
     if t[0] == 'sub' and t[1][0] == 'dict':
         try:
             table = {k[1]: v[1] for k, v in t[1][1:]}
@@ -277,6 +277,23 @@ def r_walk(ctx, fqs, floors=None):
                 continue
             if s.reader:
                 how = membership_guard(ctx, f, s)
+                uses_find = any(x[0] == 'call' and x[1][0] == 'attr' and x[1][2] == 'find' for x in walk_term(s.col))
+                if uses_find and (how is None or how == 'UNCLASSIFIED'):
+                    # str.find gives -1 for a symbol that is not a letter, and -1 is a valid column (the last one): only a test of
+                    # the symbol itself (in the live letters, in ACGT, find(...) >= 0) protects the look-up; a test of the ENTRY
+                    # found there does not
+                    about = [a_ for a_, p_ in ctx.conds(f, s.node) if any(x == s.sym for x in walk_term(a_))]
+                    entry_only = bool(about) and all(
+                        any(x[0] == 'sub' and x[2] == s.col for x in walk_term(a_)) and
+                        not any(x[0] == 'cmp' and x[1] in ('in', 'not in') and x[2] == s.sym for x in walk_term(a_)) for a_ in about)
+                    if how is None or entry_only:
+                        run.refute('R-WALK', f, role + ':guard', s.node.lineno,
+                                   "the column of the state update is %s: str.find answers -1 for a symbol outside ACGT, and column -1 is "
+                                   "the T column, so a foreign character is read as T (where .index raised ValueError)%s"
+                                   % (show(s.col)[:50], '; the only test on the way looks at the entry found, not at the symbol'
+                                      if entry_only else ''), extracted=show(s.term),
+                                   inputs='strands containing a character outside ACGT at a vertex with an arc T')
+                        continue
                 if how == 'UNCLASSIFIED':
                     run.undecided('R-WALK', f, role + ':guard', s.node.lineno,
                                   'the symbol is examined before the state update, but not in a form recognised as a '
@@ -296,6 +313,12 @@ def r_walk(ctx, fqs, floors=None):
                     run.ok('R-WALK', f, role + ':source', s.node.lineno,
                            'column drawn from the live set of the same vertex on all %d definitions' % len(good),
                            extracted=show(s.term))
+                elif all(b is not None and _rooted_in_live(ctx, f, b, s) for b in bad):
+                    # every unmatched definition is still computed FROM the live set of this vertex (an element taken another way:
+                    # LIVE[-1] at out-degree 1, a tuple unpacking, an index through a temporary): not decided, not a deviation
+                    run.undecided('R-WALK', f, role + ':source', s.node.lineno,
+                                  'the column %s is derived from the live set of the same vertex in a form not matched here'
+                                  % '; '.join(show(b)[:60] for b in bad))
                 else:
                     run.refute('R-WALK', f, role + ':source', s.node.lineno,
                                "column of state update %s is not drawn from the live arcs of the same vertex: %s"
@@ -602,6 +625,7 @@ def summarise(ctx, f, loop, path, kind, case=None):
                     s['inc'].setdefault(e.name, 0)
         elif e.kind in ('store', 'augstore'):
             s['stores'].setdefault(e.name, []).append((e.extra, e.term))
+            s.setdefault('store_inc', []).append((e.extra, e.term, dict(s['inc'])))
         elif e.kind == 'append':
             s['appends'].setdefault(e.name, []).append(e.term)
     return s
@@ -810,12 +834,37 @@ def classify_perm(ctx, f, t, state, acc):
     return None
 
 
+def _rooted_in_live(ctx, f, b, s):
+    """b is an element of the live set of the vertex of step s, taken some way: the live set is reached by following the BASES of
+    subscripts / unpackings / iterations / method calls from b (a live set that only occurs inside an index does not count)"""
+    seen = 0
+    while b is not None and seen < 12:
+        seen += 1
+        ls_ = ctx.kinds.live_set(b, f)
+        if ls_ is not None and ls_[1] == s.state and ls_[0] == s.acc:
+            return True
+        if b[0] in ('sub', 'item', 'iter', 'idx') and isinstance(b[1], tuple):
+            b = b[1]
+        elif b[0] == 'call' and b[1][0] == 'attr':
+            b = b[1][1]
+        elif b[0] == 'call' and b[1][0] == 'g' and b[1][1] in ('builtins.int', 'builtins.next', 'builtins.iter', 'builtins.list',
+                                                             'builtins.tuple', 'builtins.reversed', 'builtins.sorted') and b[2]:
+            b = b[2][0]
+        else:
+            return False
+    return False
+
+
 def classify_sel(ctx, f, col, state, acc):
     """column term of an emitter -> ('plain', d) | ('perm', d) | ('first',) | ('dev', text) | None"""
     K = ctx.kinds
     if col[0] != 'sub':
         return None
     ls = K.live_set(col[1], f)
+    if ls is None and col[1][0] == 'sub' and col[1][2] == ('slice', ('c', None), ('c', None), ('c', -1)):
+        lr = K.live_set(col[1][1], f)
+        if lr is not None and lr[1] == state and lr[0] == acc and col[2] != ('c', 0) and col[2][0] != 'c':
+            return ('dev', 'live arcs are taken in reversed order: digit d selects the (n-1-d)-th live arc')
     if ls is None or ls[1] != state or ls[0] != acc:
         return None
     idx = col[2]
@@ -1083,13 +1132,41 @@ def base_encode(ctx, f, loop, s, d, deg, state, acc, form):
 def bits_encode(ctx, f, loop, s, d, deg, form):
     """fast mode digit: DEG 4 -> 2*B[c] + B[c+1] (second bit optional when guarded), DEG 2 -> B[c]"""
     cursor = message_cursor(ctx, f, loop)
+    # a cursor that starts at c0 (0, or 1 for a "one past the current bit" counter) addresses the current bit as B[cursor - c0]
+    c0 = 0
+    if cursor is not None:
+        body_ = {n.id for n in f.nodes if loop.hid in n.loops}
+        inits = [TermBuilder(f, f.defs[i].node).def_term(i) for i in f.reaching(loop.hid, cursor) if f.defs[i].node not in body_]
+        if len(inits) == 1 and inits[0] is not None and inits[0][0] == 'c' and isinstance(inits[0][1], int):
+            c0 = inits[0][1]
+        elif inits and not all(i_ == ('c', 0) for i_ in inits):
+            c0 = None           # the cursor does not start at a constant (a count-down of the bits left, ...)
+
+    def other_addressing(t):
+        """the digit reads the message at something that is not `cursor + constant`: another way of keeping the position"""
+        from .repair import affine as _aff
+        for x in walk_term(t):
+            if x[0] == 'sub' and x[1][0] == 'v' and x[1][1] == 'binary_message':
+                parts = [b_ for b_ in x[2][1:3] if b_ != ('c', None)] if x[2][0] == 'slice' else [x[2]]
+                for p_ in parts:
+                    a = _aff(p_)
+                    if a is None:
+                        return True
+                    syms = [k for k in a if k != 1 and k[0] == 'v' and k[1] == cursor]
+                    if c0 is None or not (len(syms) == 1 and a[syms[0]] == 1):
+                        return True
+        return False
 
     def bit(t, off):
+        if c0 is None:
+            return False
         if t[0] == 'sub' and t[1][0] == 'v' and t[1][1] == 'binary_message':
-            i = t[2]
-            if off == 0:
-                return i[0] == 'v' and i[1] == cursor
-            return i[0] == 'bin' and i[1] == '+' and i[2][0] == 'v' and i[2][1] == cursor and i[3] == ('c', off)
+            from .repair import affine as _aff
+            a = _aff(t[2])
+            if a is None:
+                return False
+            syms = [k for k in a if k != 1]
+            return len(syms) == 1 and syms[0][0] == 'v' and syms[0][1] == cursor and a[syms[0]] == 1 and a.get(1, 0) == off - c0
         return False
 
     def times2(t):
@@ -1102,6 +1179,8 @@ def bits_encode(ctx, f, loop, s, d, deg, form):
     if deg == 2:
         if bit(d, 0):
             return ('ok', form + ': one bit B[c]')
+        if other_addressing(d):
+            return ('opaque', 'the message is addressed as %s' % show(d)[:60])
         return ('dev', 'out-degree 2 digit is %s, not the single bit at the cursor' % show(d))
     # deg 4
     hi = lo = None
@@ -1111,6 +1190,8 @@ def bits_encode(ctx, f, loop, s, d, deg, form):
                 hi, lo = times2(a), b
     elif times2(d) is not None:
         hi, lo = times2(d), None
+    if other_addressing(d):
+        return ('opaque', 'the message is addressed as %s' % show(d)[:60])
     if hi is None:
         return ('dev', 'out-degree 4 digit is %s, not 2*B[c] + B[c+1]' % show(d))
     if bit(hi, 0) and (lo is None or bit(lo, 1)):
@@ -1337,16 +1418,29 @@ def r_endian(ctx):
             for p, k in fps:
                 s = summarise(ctx, dec, loop, p, k, case)
                 cur = decoder_cursor(s)
-                stores = [(t, v) for arr, sts in s['stores'].items() for t, v in sts]
+                from .repair import affine as _aff
+                body_ = {n_.id for n_ in dec.nodes if loop.hid in n_.loops}
+                inits_ = [TermBuilder(dec, dec.defs[i_].node).def_term(i_) for i_ in dec.reaching(loop.hid, cur)
+                          if dec.defs[i_].node not in body_] if cur else []
+                if inits_ and all(i_ is not None and i_[0] == 'c' and isinstance(i_[1], int) for i_ in inits_) and \
+                        len({i_[1] for i_ in inits_}) == 1:
+                    c0_ = inits_[0][1]
+                else:
+                    c0_ = None
+                if c0_ is None:
+                    okall, why, npaths = None, 'the output cursor does not start at a constant', npaths + 1
+                    continue
                 offs = {}
-                for t, v in stores:
+                for t, v, inc_then in s.get('store_inc', []):
                     idx = t[2] if t[0] == 'sub' else None
                     off = None
-                    if idx is not None and idx[0] == 'v' and idx[1] == cur:
-                        off = 0
-                    elif idx is not None and idx[0] == 'bin' and idx[1] == '+' and idx[2][0] == 'v' and idx[2][1] == cur \
-                            and idx[3][0] == 'c':
-                        off = idx[3][1]
+                    a_ = _aff(idx) if idx is not None else None
+                    if a_ is not None:
+                        ks = [k for k in a_ if k != 1]
+                        if len(ks) == 1 and ks[0][0] == 'v' and ks[0][1] == cur and a_[ks[0]] == 1:
+                            # walk_path writes the index on the cursor of the start of the round (an earlier advance is folded in);
+                            # a cursor that starts at c0 addresses the current bit at cursor - c0
+                            off = a_.get(1, 0) + c0_
                     offs[off] = v
                 npaths += 1
                 if deg == 4:
@@ -1361,6 +1455,9 @@ def r_endian(ctx):
                         okall, why = False, 'out-degree 2 must store exactly one bit at the cursor'
                     elif v0[0] == 'bin' and not (v0[1] == '%' and v0[3] == ('c', 2)):
                         okall, why = False, 'out-degree 2 stores %s' % show(v0)
+            if okall is None:
+                run.undecided('R-ENDIAN', dec, 'fast:unpack:DEG=%d' % deg, dec.nodes[loop.hid].lineno, why)
+                continue
             run.check(okall and npaths > 0, 'R-ENDIAN', dec, 'fast:unpack:DEG=%d' % deg, dec.nodes[loop.hid].lineno,
                       'most significant bit first on %d paths' % npaths,
                       'fast-mode decoder at out-degree %d: %s' % (deg, why or 'no feasible path'),
@@ -1428,15 +1525,32 @@ def r_ahead(ctx):
                             # any equivalent way of writing the bound (i < n - c, i + c + 1 <= n, n > i + c, not n <= i + c ...):
                             # the path conditions that speak about the cursor and the length are evaluated on a grid of
                             # (cursor, length); the access is guarded iff they never hold together with cursor + c >= length
+                            def _slice_len(x):
+                                # len(BITS[a:b]): the number of bits left in a window, a length of its own
+                                return is_call(x, 'builtins.len') and len(x[2]) == 1 and x[2][0][0] == 'sub' and x[2][0][1] == base and \
+                                    x[2][0][2][0] == 'slice' and x[2][0][2][3] in (('c', None), ('c', 1))
+
+                            def _at(x, iv, Lv):
+                                if x == cur:
+                                    return iv
+                                if x in length_terms:
+                                    return Lv
+                                if _slice_len(x):
+                                    lo_ = feval(x[2][0][2][1], lambda y: _at(y, iv, Lv))
+                                    hi_ = feval(x[2][0][2][2], lambda y: _at(y, iv, Lv))
+                                    if lo_ is UNKNOWN or hi_ is UNKNOWN:
+                                        return UNKNOWN
+                                    return len(range(Lv)[lo_:hi_])
+                                return UNKNOWN
                             rel = [(a_, p_) for a_, p_ in ctx.conds(f, nd)
-                                   if any(x == cur for x in walk_term(a_)) and any(x in length_terms for x in walk_term(a_))]
+                                   if any(x == cur for x in walk_term(a_)) and
+                                   any(x in length_terms or _slice_len(x) for x in walk_term(a_))]
                             verdict = None
                             if rel:
                                 verdict = True
                                 for iv in range(0, 9):
                                     for Lv in range(0, 9):
-                                        vals = [feval(a_, lambda x, iv=iv, Lv=Lv: iv if x == cur else (Lv if x in length_terms else UNKNOWN))
-                                                for a_, p_ in rel]
+                                        vals = [feval(a_, lambda x, iv=iv, Lv=Lv: _at(x, iv, Lv)) for a_, p_ in rel]
                                         if any(v is UNKNOWN for v in vals):
                                             verdict = None
                                             break
@@ -1583,6 +1697,65 @@ def r_vtuse(ctx):
                     if a == ('v', 'vt_check', 'P') and call_name(b) and call_name(b).endswith('.set_vt'):
                         cmp_nodes.append((nd, b, pol))
     if not cmp_nodes:
+        # the check compared piecewise: vt_check[S] against set_vt(...)[S] for several slices S.  Each piece agrees or not,
+        # independently; decode must raise as soon as one piece differs - decided by evaluating the test on every combination
+        import itertools
+        for nd in dec.nodes:
+            if nd.kind != 'test':
+                continue
+            t = dec.term(nd.ast, nd)
+            pieces = {}
+            for x in walk_term(t):
+                if x[0] == 'cmp' and x[1] in ('==', '!='):
+                    for a, b in ((x[2], x[3]), (x[3], x[2])):
+                        if a[0] == 'sub' and a[1] == ('v', 'vt_check', 'P') and b[0] == 'sub' and b[2] == a[2] and \
+                                call_name(b[1]) and call_name(b[1]).endswith('.set_vt') and a[2][0] == 'slice':
+                            pieces.setdefault(a[2], []).append(x)
+            if len(pieces) < 2:
+                continue
+            keys = sorted(pieces, key=repr)
+            raises = [m for m in dec.nodes if isinstance(m.stmt, ast.Raise) and m.kind == 'stmt' and
+                      any(tid == nd.id for _t, _p, tid in m.conds)]
+            if not raises:
+                continue
+            rpol = [p for _t, p, tid in raises[0].conds if tid == nd.id][0]
+            wit = None
+            for combo in itertools.product((True, False), repeat=len(keys)):
+                agree = dict(zip(keys, combo))
+
+                def at(x, agree=agree):
+                    if x[0] == 'cmp' and x[1] in ('==', '!='):
+                        for k_ in keys:
+                            if x in pieces[k_]:
+                                return agree[k_] if x[1] == '==' else not agree[k_]
+                    return UNKNOWN
+                v = feval(t, at)
+                if v is UNKNOWN:
+                    wit = None
+                    break
+                if (bool(v) == rpol) != (not all(combo)) and not all(combo):
+                    wit = [show(('sub', ('v', 'vt_check', 'P'), k_))[:30] for k_ in keys if not agree[k_]]
+                    break
+            if wit:
+                run.refute('R-VTUSE', dec, 'check-comparison:every-piece', nd.lineno,
+                           'decode compares the supplied check with the recomputed one piece by piece and does not raise when only %s '
+                           'differ(s): a strand whose check disagrees in that piece alone is accepted' % ', '.join(wit),
+                           inputs='corrupted strands whose recomputed check differs from the supplied one only in that piece')
+                return
+    if not cmp_nodes:
+        wit = _mismatch_accepted_by_paths(ctx, dec)
+        if wit:
+            run.refute('R-VTUSE', dec, 'check-comparison:mismatch-raises', wit[0],
+                       'a supplied check that differs from the recomputed one is accepted on the path through line(s) %s when %s: the '
+                       'walk is decoded although the check disagrees' % (wit[1], wit[2]),
+                       inputs='corrupted strands decoded with the original check in that configuration')
+            return
+    if not cmp_nodes and any(call_name(x) and call_name(x).endswith('.set_vt') for n_, r_, t_ in ctx.root_terms(dec)
+                             if t_ is not None for x in walk_term(t_)):
+        run.undecided('R-VTUSE', dec, 'check-comparison', dec.node.lineno,
+                      'decode calls set_vt, but no test of the form vt_check == set_vt(...) is recognised')
+        return
+    if not cmp_nodes:
         run.refute('R-VTUSE', dec, 'check-comparison', dec.node.lineno,
                    'decode never compares vt_check with set_vt(...): a supplied check is ignored',
                    inputs='any corrupted strand decoded with its check')
@@ -1627,6 +1800,67 @@ def r_vtuse(ctx):
               'the check test dominates %d walk steps / returns' % len(targets),
               'statement at line %s is reachable without passing the check comparison'
               % (bad[0].lineno if bad else '?'), inputs='corrupted strands decoded with the original check')
+
+
+def _mismatch_accepted_by_paths(ctx, dec):
+    """paths from the entry of decode to its first loop, evaluated with `vt_check is None` false and `vt_check == set_vt(..)`
+    false: a feasible one whose undetermined tests do not speak about the check is an acceptance of a mismatching check.
+    -> (line, lines of the path's tests, text of the undetermined tests) or None"""
+    from ..ctx import paths_between, walk_path
+    vt = ('v', 'vt_check', 'P')
+    heads = [n.id for n in dec.nodes if n.kind in ('for', 'while') and not n.loops]
+    raises = [n.id for n in dec.nodes if isinstance(n.stmt, ast.Raise) and n.kind == 'stmt' and not n.loops]
+    if not heads:
+        return None
+
+    def at(x):
+        if x[0] == 'cmp' and x[1] in ('is', 'is not') and x[2] == vt and x[3] == ('c', None):
+            return x[1] == 'is not'
+        if x[0] == 'cmp' and x[1] in ('==', '!='):
+            for a, b in ((x[2], x[3]), (x[3], x[2])):
+                if a == vt and call_name(b) and call_name(b).endswith('.set_vt'):
+                    return x[1] == '!='
+        return UNKNOWN
+    saw_cmp = False
+    for h in heads:
+        try:
+            paths = paths_between(dec, dec.entry.id, h, avoid=set(heads + raises) - {h})
+        except AnalysisError:
+            return None
+        for p in paths:
+            events, env = walk_path(dec, p)
+            feasible, unknown = True, []
+            for e in events:
+                if e.kind != 'test' or e.extra is None:
+                    continue
+                if any(at(x) is not UNKNOWN and x[0] == 'cmp' and x[1] in ('==', '!=') for x in walk_term(e.term)):
+                    saw_cmp = True
+                v = feval(e.term, at)
+                if v is UNKNOWN:
+                    unknown.append(e)
+                elif bool(v) != e.extra:
+                    feasible = False
+                    break
+            if not feasible:
+                continue
+            def about_check(t):
+                # vt_check occurs in t outside the two atoms decided above
+                if at(t) is not UNKNOWN:
+                    return False
+                if t == vt:
+                    return True
+                return any(about_check(x) for x in t[1:] if isinstance(x, tuple) and x and isinstance(x[0], str)) or \
+                    any(about_check(y) for x in t[1:] if isinstance(x, tuple) and x and isinstance(x[0], tuple) for y in x
+                        if isinstance(y, tuple) and y and isinstance(y[0], str))
+            if any(about_check(e.term) for e in unknown):
+                return None             # an undetermined test about the check itself: not decided here
+            tests = [e for e in events if e.kind == 'test']
+            if not any(any(call_name(x) and call_name(x).endswith('.set_vt') for x in walk_term(e.term)) or
+                       any(at(x) is not UNKNOWN for x in walk_term(e.term)) for e in tests):
+                continue                # a path that never looks at the check: the plain "never compares" case, reported elsewhere
+            return (tests[0].node.lineno if tests else dec.node.lineno, sorted({e.node.lineno for e in tests}),
+                    ' and '.join(('' if e.extra else 'not ') + show(e.term)[:60] for e in unknown) or 'always')
+    return None
 
 
 def r_loop_test(ctx):
@@ -1729,6 +1963,33 @@ def r_msg(ctx):
                       % (name, [show(i)[:60] if i else None for i in its]), inputs='every message')
         else:
             ok = bool(its) and all(i == ('c', 0) for i in its)
+            if not ok and len(its) == 1 and its[0] is not None and its[0][0] == 'c' and isinstance(its[0][1], int):
+                # a cursor that starts at c0 and reads the current bit at B[cursor - c0] is the same cursor shifted: the smallest
+                # offset at which the message is read in the loop must be -c0
+                from .repair import affine as _aff
+                offs = []
+                for nd_ in enc.nodes:
+                    if nd_.id not in body or nd_.ast is None:
+                        continue
+                    for sub_ in ast.walk(nd_.ast if not isinstance(nd_.ast, (ast.If, ast.While)) else nd_.ast.test):
+                        if not isinstance(sub_, ast.Subscript):
+                            continue
+                        try:
+                            x = enc.term(sub_, nd_)
+                        except Exception:
+                            continue
+                        if x is not None and x[0] == 'sub' and x[1] == bm:
+                            a_ = _aff(x[2])
+                            if a_ is not None:
+                                ks = [k for k in a_ if k != 1]
+                                if len(ks) == 1 and ks[0][0] == 'v' and ks[0][1] == name and a_[ks[0]] == 1:
+                                    offs.append(a_.get(1, 0))
+                if offs and min(offs) == -its[0][1]:
+                    ok = True
+            if not ok and its and any(i is None or i[0] != 'c' for i in its):
+                run.undecided('R-MSG', enc, 'fast:cursor-starts-at-0', head.lineno,
+                              'the loop variable `%s` starts at %s: not a cursor counted from the first bit' % (name, [show(i)[:30] if i else None for i in its]))
+                continue
             run.check(ok, 'R-MSG', enc, 'fast:cursor-starts-at-0', head.lineno, 'cursor starts at 0',
                       'the fast-mode cursor `%s` starts at %s' % (name, [show(i)[:30] if i else None for i in its]),
                       inputs='every message in fast mode')
@@ -1771,7 +2032,40 @@ def r_msg(ctx):
         for c in sorted(cursors):
             init = [dec.defs[i] for i in dec.reaching(loop.hid, c) if dec.defs[i].node not in body]
             its = [TermBuilder(dec, d.node).def_term(d.id) for d in init]
-            run.check(bool(its) and all(i == ('c', 0) for i in its), 'R-MSG', dec, 'fast:cursor-starts-at-0', dec.nodes[loop.hid].lineno,
+            okc = bool(its) and all(i == ('c', 0) for i in its)
+            if not okc and len(its) == 1 and its[0] is not None and its[0][0] == 'c' and isinstance(its[0][1], int):
+                # a cursor that starts at c0 and stores the current bit at OUT[cursor - c0] is the same cursor shifted
+                from .repair import affine as _aff
+                offs = []
+                for nd_ in dec.nodes:
+                    if nd_.id not in body:
+                        continue
+                    for d_ in nd_.defs:
+                        if d_.kind == 'mutate' and isinstance(d_.extra, ast.Subscript):
+                            try:
+                                a_ = _aff(dec.term(d_.extra.slice, nd_))
+                            except Exception:
+                                a_ = None
+                            if a_ is not None:
+                                ks = [k for k in a_ if k != 1]
+                                if len(ks) == 1 and ks[0][0] == 'v' and ks[0][1] == c and a_[ks[0]] == 1:
+                                    offs.append(a_.get(1, 0))
+                if not offs:
+                    run.undecided('R-MSG', dec, 'fast:cursor-starts-at-0', dec.nodes[loop.hid].lineno,
+                                  'the output cursor `%s` starts at %s and no store addressed by it is recognised' % (c, show(its[0])))
+                    continue
+                # whether the first store of a round precedes or follows the advance is not known here: both the smallest offset
+                # and the offset after a first advance of 1 or 2 are consistent with a shifted cursor
+                okc = min(offs) == -its[0][1]
+                if not okc:
+                    run.undecided('R-MSG', dec, 'fast:cursor-starts-at-0', dec.nodes[loop.hid].lineno,
+                                  'the output cursor `%s` starts at %s; stores at offsets %s' % (c, show(its[0]), sorted(set(offs))))
+                    continue
+            elif not okc and its and any(i is None or i[0] != 'c' for i in its):
+                run.undecided('R-MSG', dec, 'fast:cursor-starts-at-0', dec.nodes[loop.hid].lineno,
+                              'the output cursor `%s` starts at %s' % (c, [show(i)[:30] if i else None for i in its]))
+                continue
+            run.check(okc, 'R-MSG', dec, 'fast:cursor-starts-at-0', dec.nodes[loop.hid].lineno,
                       'output cursor starts at 0', 'the fast-mode output cursor `%s` starts at %s' % (c, [show(i) if i else None for i in its]),
                       inputs='every strand in fast mode')
 
@@ -1797,6 +2091,18 @@ def r_raise(ctx, which=('encode', 'decode')):
             conds = ctx.conds(f, nd)
             about_check = any(any(x == vt for x in walk_term(a)) and
                               any(call_name(x) and call_name(x).endswith('.set_vt') for x in walk_term(a)) for a, p in conds)
+            if name == 'decode' and not about_check:
+                # the expected check computed into a variable first: `e = None if vt_check is None else set_vt(...)`; `if vt_check != e`
+                for a, p in conds:
+                    if not any(x == vt for x in walk_term(a)):
+                        continue
+                    for x in walk_term(a):
+                        alts = f.alternatives(x) if x[0] == 'v' else None
+                        if alts and any(t_ is not None and any(call_name(y) and call_name(y).endswith('.set_vt')
+                                                                for y in walk_term(t_)) for _, t_ in alts) and \
+                                all(t_ is not None and (t_ == ('c', None) or any(call_name(y) and call_name(y).endswith('.set_vt')
+                                                                                   for y in walk_term(t_))) for _, t_ in alts):
+                            about_check = True
             role = 'raise-outside-the-walk@%d' % n
             if name == 'decode' and about_check:
                 run.ok('R-RAISE', f, role, nd.lineno, 'the raise belongs to the comparison of the supplied check')
